@@ -575,7 +575,12 @@ def value_point(rng, sol, sig, vals=None):
     if sol == 'cp_normal':
         return [hexf(exact_double(rng, -3.0, 3.0)) for _ in range(n)]
     if sol == 'radiation_integrated_intensity':
-        return [hexf(exact_double(rng, 0.05, 1.0)) for _ in range(n)]
+        # (one draw per coordinate, as before; its own value selects the class.)  x <= 0: the documented guard value of exact_u;
+        # x > 1000: its "integrate to infinity" branch; otherwise x in (0.05, 3)
+        def cls(v):
+            f = (v - 0.05) / 0.95
+            return (0.0 if f < 0.02 else -v) if f < 0.08 else (1000.0 + 64.0 * v if f > 0.94 else (v if f < 0.6 else 3.0 * v))
+        return [hexf(cls(exact_double(rng, 0.05, 1.0))) for _ in range(n)]
     axi = sol.startswith('axi')
     pt = []
     for i in range(n):
@@ -619,6 +624,22 @@ def zeroable(sol):
     if purity_picker(sol) is not admissible_param:
         return []
     return [k for k in CAT[sol]['pars'] if k not in PROTECT]
+
+
+def field_groups(sol):
+    """for the solutions whose exact fields are sums of modes with their own amplitudes: the parameters that switch one whole
+    field off (all its amplitudes, the constant part included).  A field that is identically zero is inside "all parameters"
+    of the exact-field and gradient evaluators (not of the source terms, which divide by rho and T): a rewrite of a gradient
+    through a quotient or a logarithmic derivative shows only there."""
+    pars = CAT[sol]['pars']
+    if sol == 'navierstokes_4d_compressible_powerlaw':
+        return {f: [k for k in pars if k.startswith('a_' + f) and (len(k) == len('a_' + f) or k[len('a_' + f)] in '0xyzt')] for f in ('rho', 'u', 'v', 'w', 'T')}
+    G = {}
+    for f in ('rho', 'u', 'v', 'w', 'p'):
+        ks = [k for k in pars if k in (f + '_0', f + '_x', f + '_y', f + '_z', f + '_t', f + '_r')]
+        if ks:
+            G[f] = ks
+    return G
 
 
 def gen_values(rng, sol, precs=('d', 'ld'), nassign=2, npts=3, evaluators=None, setter=None, variant='exc', paired=True, mix=False, zero_plan=None, oat=0):
